@@ -121,7 +121,7 @@ def place_put(sc, rng, where_items, allow_setup=True, allow_timer=True):
         sc.setup.append("wp0")
     elif o == "compl":
         i = rng.choice(where_items)
-        sc.add(("c", i), ["wp0"], rng.choice([0, 0, 1]) if False else 0)
+        sc.add(("c", i), ["wp0"])
     else:
         if not sc.timer(rng.choice(DELAYS), ["wp0"]):
             sc.setup.append("wp0")
@@ -356,11 +356,268 @@ def gen_helpers(rng):
             sc.helper(end, ("c", rng.choice(its)))
         else:
             if sc.free_timers and sc.free_helpers:
-                n = sc.free_helpers[-1]
-                if sc.timer(rng.choice([0, 1, 10 * S]), []):
-                    j = max(k[1] for k in sc.scripts if k[0] == "t")
-                    sc.helper(end, ("t", [k for k in sc.scripts if k[0] == "t"][-1][1]))
+                j = sc.free_timers[-1]
+                if sc.timer(rng.choice([0, 1, 10 * S]), ["y"]):
+                    sc.helper(end, ("t", j))
     if with_pool and rng.random() < 0.6:
         place_put(sc, rng, its)
     sc.sched = schedule(rng, nh + 3, rng.choice([0, 30, 100, 200]), rng.choice(STYLES))
     return sc.text()
+
+
+# ---------------------------------------------------------------------------------------------------------
+def log_features(log):
+    """what happened in a log, for the non-triviality rules and the distribution report"""
+    f = {"workers": 0, "switch_in_cs": False, "cont": False, "idle_exit": False, "rearm": False, "kick_idle": False,
+         "put": False, "stop_after_put": False, "put_starting": False, "helper_te": False, "helper_init": False,
+         "helpers": 0, "local": False, "self_kick": False, "needed": False, "end": ""}
+    if not log:
+        return f
+    segs = []
+    for s in log.split(" | "):
+        m = re.match(r"^(\d+):(.*)$", s.strip())
+        if m:
+            segs.append((int(m.group(1)), m.group(2).strip()))
+    if not segs:
+        return f
+    f["end"] = segs[-1][1].split()[0]
+    holder = None            # thread inside a pool-lock section (between `L x<pool>` and `U x<pool>`)
+    pool = None
+    inact = {}
+    prev = {}
+    work_threads = set()
+    started = set()
+    hooked = set()
+    put_seen = False
+    for t, x in segs:
+        if holder is not None and t != holder:
+            f["switch_in_cs"] = True
+        if x.startswith("a ws") or x.startswith("a wp") or x.startswith("a wS"):
+            inact[t] = x
+            if x.startswith("a wS"):
+                f["cont"] = True
+            if x.startswith("a wp"):
+                f["put"] = True
+                put_seen = True
+                if started - hooked:
+                    f["put_starting"] = True
+        elif x == "pe":
+            inact.pop(t, None)
+        elif x.startswith("a wl"):
+            f["local"] = True
+        elif x.startswith("L x") and pool is None and t in inact:
+            pool = x[2:]
+            holder = t
+        elif pool is not None and x == "L " + pool:
+            holder = t
+            p = prev.get(t, "")
+            if t != 0 and p.startswith("R n=0"):
+                f["idle_exit"] = True      # the idle timer callback (no event was dispatched before the lock)
+        elif pool is not None and x == "U " + pool:
+            if t != 0 and prev.get(t, "") == "L " + pool and f["idle_exit"]:
+                f["rearm"] = True
+            holder = None
+        elif x.startswith("Kk ") and t in inact and not x.endswith(" 1000"):
+            f["kick_idle"] = True
+        elif x.startswith("L x") and holder == t and t != 0 and t in hooked and t not in inact:
+            f["self_kick"] = True
+        elif x.startswith("L e") and holder == t and t in inact and t != 0:
+            f["needed"] = True
+        elif x.startswith("Cw") and t != 0:
+            work_threads.add(t)
+        elif x.startswith("Cs"):
+            hooked.add(t)
+        elif x.startswith("CS") and put_seen:
+            f["stop_after_put"] = True
+        elif x.startswith("Tc "):
+            started.add(int(x[3:]))
+        elif x.startswith("Ch"):
+            f["helpers"] += 1
+        elif x == "Te":
+            f["helper_te"] = True
+        elif x == "a hi":
+            f["helper_init"] = True
+        prev[t] = x
+    f["workers"] = len(work_threads)
+    return f
+
+
+class _WorkCheck(MTCheck):
+    extract_v = "Extract/ExtractWorkMT.v"
+    model_ml = "workmt_model.ml"
+    driver_in = "workmt_drv.ml.in"
+    open_module = "Workmt_model"
+    coq_targets = ["theories/MT/WorkMT.vo", "theories/MT/WorkMTBase.vo", "theories/MT/WorkMTSpec.vo", "theories/MT/WorkMTCs.vo",
+                   "theories/MT/WorkMTInvA.vo", "theories/MT/WorkMTInvW.vo", "theories/MT/WorkMTInvW4.vo",
+                   "theories/MT/WorkMTInvW5.vo"]
+    trusted = [
+        "log -> label abstraction (ocaml/workmt_drv.ml.in, unproved): owner = the thread that creates the pool; pool lock = the first "
+        "x<n> lock taken inside the first submit / put; loop lock of a pool thread = the first unclassified x<n> lock it takes after its "
+        "thread-start hook (its start-up self post); `Kk` is attributed to the loop whose lock the kicking thread released just before; "
+        "`Tc n` of the owner is an iv_thread creation when it happens under the pool lock or right after `a tc` (harness-spawned "
+        "threads are dropped); dropped segments: waits W/R (except the R that ends a Wb), Fw/Fr/K (descriptor layer), I/Li/T, `a y`, "
+        "`a tc`, `a tr`, Ch and the helper-ending actions, U of loop locks, every other lock (iv_fd_epoll active-descriptor mutex): "
+        "they carry no iv_work / iv_thread state",
+        "iv_event taken at its interface (C08): FIFO coalescing list per loop, post under the loop's lock, kick iff the list became "
+        "non-empty from another thread, pop before the handler, unregister = lock + unlink; the model decides which event an `L e<k>` "
+        "concerns from the state of the acting thread; guards of `step` that encode other components: iv_main returns only with "
+        "numobjs = 0 (MainEnd), a wait with an armed timer has a deadline and a registered task prevents blocking (QUIESCENT), no "
+        "undelivered post at QUIESCENT",
+        "one pool per scenario, owner loop + pool threads + helper threads created by the owner; virtual time is not in the model: the "
+        "idle timer may fire whenever the worker is on the idle list (covers every expiry time)",
+        "baton scheduler mt.c / virtual kernel vk.c as for C08: sequentially consistent interleavings, switches at the yield points only",
+    ]
+    assumptions = [
+        "API contract (scenario generator, and guards of `step`): work items are submitted only while not in flight; no submission after "
+        "iv_work_pool_put and no put concurrent with a continuation submission; threads are created and pools used from the owner only; "
+        "handlers and work functions return; thread_start / thread_stop hooks are set",
+        "partial: thread-creation failure and allocation failure are not modelled; fewer than 2^31 items queued at once; several pools on "
+        "one loop are independent instances sharing only the owner's event list (not explored); no iv_quit; the harness does not "
+        "distinguish a local (NULL pool) work function that runs inside the submit call from one that runs from the task right after it",
+    ]
+
+    def mix(self, ctx):
+        raise NotImplementedError
+
+    def cases(self, ctx):
+        rng = vlib.rng_for(ctx.seed, self.pid)
+        cases = []
+        corpus = os.path.join(vlib.VERIF, "corpus", "%s.txt" % self.pid)
+        if os.path.exists(corpus):
+            cases += [l.rstrip("\n") for l in open(corpus) if l.strip()]
+        cases += self.FIXED
+        for fn, n in self.mix(ctx):
+            for _ in range(n):
+                cases.append(fn(rng))
+        return cases
+
+    def distribution(self, cases):
+        d = {"cases": len(cases)}
+        for k in ("wS", "wl", "wp0", "tc", "hx", "hi", "tr"):
+            d["cases_with_" + k] = sum(1 for c in cases if (" " + k) in c or (":" + k) in c)
+        for m in (1, 2, 3, 4):
+            d["max_threads_%d" % m] = sum(1 for c in cases if "wc0=%d" % m in c)
+        d["with_schedule"] = sum(1 for c in cases if ";Z" in c)
+        return d
+
+    def _fails(self, ctx, case):
+        st = self.correspond(ctx, [case])
+        return bool(st["crashes"] or st["monfail"] or st["div"])
+
+    def shrink(self, ctx, case):
+        """drop the schedule tail, handler scripts and single actions while the failure persists"""
+        tries = [0]
+
+        def ok(c):
+            if tries[0] >= 120:
+                return False
+            tries[0] += 1
+            return self._fails(ctx, c)
+
+        secs = [x for x in case.split(";") if x]
+        # schedule: shorter and shorter prefixes
+        for i, sec in enumerate(secs):
+            if sec.startswith("Z"):
+                z = sec[1:]
+                while len(z) > 0:
+                    cand = z[:len(z) // 2]
+                    trial = secs[:i] + (["Z" + cand] if cand else []) + secs[i + 1:]
+                    if ok(";".join(trial)):
+                        z = cand
+                        secs = trial
+                        if not cand:
+                            break
+                    else:
+                        break
+                break
+        i = 0
+        while i < len(secs):
+            if secs[i][0] == "H":
+                cand = secs[:i] + secs[i + 1:]
+                if ok(";".join(cand)):
+                    secs = cand
+                    continue
+            i += 1
+        for i in range(len(secs)):
+            if secs[i][0] not in "LH" or ":" not in secs[i]:
+                continue
+            head, body = secs[i].split(":", 1)
+            lists = [l.split() for l in body.split("/")]
+            for li in range(len(lists)):
+                ai = 0
+                while ai < len(lists[li]):
+                    if lists[li][ai].startswith("wc"):
+                        ai += 1
+                        continue
+                    cand = [list(l) for l in lists]
+                    del cand[li][ai]
+                    txt = head + ":" + "/".join(" ".join(l) if l else "-" for l in cand)
+                    if ok(";".join(secs[:i] + [txt] + secs[i + 1:])):
+                        lists = cand
+                        secs[i] = txt
+                    else:
+                        ai += 1
+        return ";".join(secs)
+
+
+class C12(_WorkCheck):
+    pid = "C12"
+    rule = ("cases = seeded scenarios of one pool with max_threads 1-4 on the real iv_work.c: (a) bursts of 1-8 submissions from the "
+            "owner, resubmission from completions, later submissions from owner timers at 0 / 1 ns / 5 / 10 / 10+1ns / 15 / 20 / 30 s "
+            "(the workers' idle timers expire 10 s after they went idle: equal virtual deadlines race under the schedule); (b) chains of "
+            "continuations submitted from work functions next to plain items; (c) idle-timer races (submissions and puts exactly at the "
+            "idle expiry); (d) NULL-pool items mixed with pool items, submitted from set-up, local work functions, completions, timers; "
+            "schedules Z: random, bursty, ping-pong, owner first (threads still starting when more work arrives), workers first.  "
+            "non-trivial = another thread ran while some thread held the pool lock, or >= 2 pool threads ran work functions, or an idle "
+            "timer fired (exit or re-arm), or a continuation / self-kick / thread_needed post happened; distinct = distinct scenario text")
+    FIXED = [
+        "Bet;M40;Z0101210;L0:wc0=2 ws0.0 ws0.1 ws0.2;H0c2:wp0",
+        "Bet;M40;Z0101210;L0:wc0=2 ws0.0 ws0.1;H0w0:wS0.0.2",
+        "Bet;M40;L0:wl3 wl4 tc1;H0h1:y",
+        "Bet;M60;L0:wc0=1 ws0.0 ws0.1 ws0.2 ws0.3 tr0+10000000000;H0t0:ws0.4 ws0.5",
+        "Bet;M60;Z000000000011111111112222222222;L0:wc0=2 ws0.0 tr0+10000000000 tr1+10000000000;H0t0:ws0.1;H0t1:ws0.2",
+    ]
+
+    def mix(self, ctx):
+        q = ctx.tier == "quick"
+        return [(gen_burst, 260 if q else 12000), (gen_cont, 140 if q else 6000), (gen_idle_race, 160 if q else 8000),
+                (gen_local, 90 if q else 4000), (gen_put_at, 50 if q else 2000)]
+
+    def nontrivial(self, case, log):
+        f = log_features(log)
+        return bool(f["switch_in_cs"] or f["workers"] >= 2 or f["idle_exit"] or f["cont"] or f["self_kick"] or f["needed"])
+
+
+class C13(_WorkCheck):
+    pid = "C13"
+    rule = ("cases = seeded scenarios with iv_work_pool_put at a chosen point: first thing after create, between set-up submissions, "
+            "from a completion (first / second run of a resubmitted item), from a local work function, from owner timers at 0 / 5 / 10 / "
+            "10+1ns / 11 / 20 / 30 s (around the workers' idle expiry), with submissions before and after, max_threads 1-4; helper "
+            "threads made by iv_thread_create from set-up, completions and timers ending by return / pthread_exit, with iv_init and "
+            "with or without iv_deinit; the harness overwrites the user's struct iv_work_pool right after put returns; schedules as "
+            "C12, owner-first ones leave threads starting when the put arrives.  non-trivial = a pool thread ran its stop hook after the "
+            "put, or the put found a thread that had not yet run its start hook, or a helper ended by pthread_exit / with its own loop; "
+            "distinct = distinct scenario text")
+    FIXED = [
+        "Bet;M40;L0:wc0=1 wp0",
+        "Bet;M40;Z00000000000000000000000011;L0:wc0=1 ws0.0 wp0",
+        "Bet;M40;L0:tc1 tc2 tc3 tc4;H0h1:hx;H0h2:hi hx;H0h3:hi hd;H0h4:hi y hd hx",
+        "Bet;M40;Z0102010201;L0:wc0=2 ws0.0 tc1;H0h1:hi;H0c0:wp0",
+        "Bet;M60;L0:wc0=2 ws0.0 ws0.1 tr0+10000000000;H0t0:wp0",
+    ]
+
+    def mix(self, ctx):
+        q = ctx.tier == "quick"
+
+        def burst_put(rng):
+            return gen_burst(rng, put=rng.choice(["any", "any", "first"]))
+
+        def put_sys(rng):
+            return gen_put_at(rng, place=PUT_PLACES[rng.randrange(len(PUT_PLACES))])
+
+        return [(put_sys, 330 if q else 15000), (gen_helpers, 130 if q else 6000), (burst_put, 130 if q else 6000),
+                (gen_cont, 60 if q else 3000), (gen_idle_race, 50 if q else 2000)]
+
+    def nontrivial(self, case, log):
+        f = log_features(log)
+        return bool(f["stop_after_put"] or f["put_starting"] or f["helper_te"] or f["helper_init"])
